@@ -172,6 +172,15 @@ def main(argv=None):
     row = dict(function=r['cid'], status=r['status'], obligations=len(r['obligations']),
                discharged=sum(1 for o in r['obligations'] if o['verdict'] == 'unsat'),
                paths=r['paths'], source_hash=r['hash'], time_s=r['time'])
+    from pyvc import contract as _C
+    _ctr = _C.REGISTRY.get(r['cid'])
+    if _ctr is not None:
+      # a lemma client lives in /verif and only calls contracted functions of /repo: what is
+      # proved about it is a lemma over those contracts, not a statement about a /repo function
+      row['what'] = 'lemma over contracts (client in /verif/lemmas)' if _ctr.file.startswith('@verif/') \
+          else 'function of /repo'
+      row['file'] = _ctr.file
+      row['claim'] = _ctr.note
     fn_rows.append(row)
     n_obl += row['obligations']
     n_dis += row['discharged']
@@ -264,8 +273,13 @@ def main(argv=None):
       back_ends=['z3 5.1 (python API)', 'cvc5 1.0.3 (second opinion on unknown)'],
       deductive_status=('all obligations discharged' if proved_all else
                         'not re-established: see unproved' if pyvc_results else 'no deductive part'),
-      explanation=(f'{n_dis}/{n_obl} pyvc obligations discharged for {len(fn_rows)} functions of '
-                   f'/repo (unbounded, all inputs); bounded layer B: '
+      explanation=(f'{n_dis}/{n_obl} pyvc obligations discharged for '
+                   f"{sum(1 for r in fn_rows if r.get('what') != 'lemma over contracts (client in /verif/lemmas)')} "
+                   f'functions of /repo'
+                   + (f" and {sum(1 for r in fn_rows if r.get('what') == 'lemma over contracts (client in /verif/lemmas)')} "
+                      f'lemmas over their contracts'
+                      if any(r.get('what') == 'lemma over contracts (client in /verif/lemmas)' for r in fn_rows) else '')
+                   + f' (unbounded, all inputs); bounded layer B: '
                    f"{bcov.get('evaluations', 0)} enumerated cases "
                    f"({'exhaustive for the stated bound' if bcov.get('exhaustive') else 'sampled'})."),
   ))
